@@ -283,6 +283,17 @@ def _dispatch_shape(value: T, evs: T) -> bool:
 
 
 def analyse_absent(repo: Repo, run: Run, interp) -> None:
+    deferred = None
+    try:
+        _absent_in_listing(repo, run, interp)
+    except AnalysisError as ex:
+        deferred = ex
+    _absent_in_dispatch(repo, run, interp)
+    if deferred is not None:
+        raise deferred
+
+
+def _absent_in_listing(repo: Repo, run: Run, interp) -> None:
     pk = repo.cls("pykdebugparser", "PyKdebugParser")
     from .. import pipeline
     fk = repo.method("pykdebugparser", "PyKdebugParser", pipeline.line_builder(repo, interp, "formatted_kevents", "_format_kevent"))
@@ -307,7 +318,9 @@ def analyse_absent(repo: Repo, run: Run, interp) -> None:
            "" if ok else ("the name column is not `table[id] ...` when the id is in the supplied table and exactly hex(id) "
                           "otherwise" + (f": else-branch is {sym.pretty(found.a[2])[:60]}" if found is not None else "")),
            facts={"name_term": sym.pretty(found)[:200] if found is not None else None}, line=fk.lineno)
-    # the formatter is called with the chosen table (second argument of _format_kevent in formatted_kevents)
+
+
+def _absent_in_dispatch(repo: Repo, run: Run, interp) -> None:
     tp = repo.cls("traces_parser", "TracesParser")
     pel = repo.method("traces_parser", "TracesParser", "parse_event_list")
     r = interp.run(tp.module, pel, self_cls=tp)
@@ -389,7 +402,14 @@ def lookups_by_name(repo: Repo, run: Run) -> None:
 
 def check(repo: Repo, run: Run) -> None:
     interp = sym.Interp(repo)
-    lookups_by_name(repo, run)
-    analyse_table_parser(repo, run, interp)
-    analyse_indirection(repo, run, interp)
-    analyse_absent(repo, run, interp)
+    # the four groups of rules are independent: one that cannot find its anchors does not stop the others (its analysis
+    # error is raised after they have been judged)
+    deferred = None
+    for part in (lambda: lookups_by_name(repo, run), lambda: analyse_table_parser(repo, run, interp),
+                 lambda: analyse_indirection(repo, run, interp), lambda: analyse_absent(repo, run, interp)):
+        try:
+            part()
+        except AnalysisError as ex:
+            deferred = deferred or ex
+    if deferred is not None:
+        raise deferred
